@@ -15,8 +15,12 @@ def dedupHead : List String → List String
   | a :: b :: t => if a == b then b :: t else a :: b :: t
   | l => l
 
+/-- a subscriber that joined later: the state current at its subscription first, then every later change, in order -/
+def joinedOk (ss sb : List String) : Bool := sb.isEmpty || isSuffix sb ss || isSuffix (dedupHead sb) ss
+
 def holdsStream (ss sb : List String) (hasRet : Bool) (retCls retState : String) (closed : Bool)
-    (single : Bool) : Bool :=
+    (single : Bool) (extra : List (List String) := []) : Bool :=
+  extra.all (joinedOk ss) &&
   -- a walk in the lifecycle graph, only Error entered out of turn; starts with the state at subscription
   isWalk ss && ss.head? == some "New"
   -- a later subscriber: the state current at its subscription first, then every later change, in order
@@ -31,12 +35,16 @@ state afterwards; when two transitions fall into that window the subscriber rece
 first and the older queued one after it.  Recognised shape: everything but the first element of `sb`
 is a suffix of `ss`, the first element occurs again later in `sb` (it was read ahead of its turn), and
 nothing else is wrong. -/
-def knownC08F1 (ss sb : List String) (hasRet : Bool) (retCls retState : String) (closed : Bool) (single : Bool) : Bool :=
+def newerFirst (ss sb : List String) : Bool :=
   match sb with
-  | x :: rest =>
-    !(isSuffix sb ss || isSuffix (dedupHead sb) ss)
-    && isSuffix rest ss && rest.contains x && rest.head? != some x
-    && holdsStream ss [] hasRet retCls retState closed single
+  | x :: rest => !(joinedOk ss sb) && isSuffix rest ss && rest.contains x && rest.head? != some x
   | [] => false
+
+def knownC08F1 (ss sb : List String) (hasRet : Bool) (retCls retState : String) (closed : Bool) (single : Bool)
+    (extra : List (List String) := []) : Bool :=
+  -- every joined subscriber is either fine or shows the newer-first shape, at least one shows it, nothing else is wrong
+  (sb :: extra).all (fun s => joinedOk ss s || newerFirst ss s)
+  && (sb :: extra).any (newerFirst ss)
+  && holdsStream ss [] hasRet retCls retState closed single
 
 end GoSup.Spec.C08
